@@ -2285,21 +2285,23 @@ class Fn(
         found_unselected = False
 
         for addr, value in x.items():
-            is_selected, subselection = selection.match(addr)
-            if is_selected:
-                if isinstance(value, dict) and subselection is not None:
-                    # Recursively filter nested choices
-                    selected_sub, unselected_sub = self.filter(value, subselection)
-                    if selected_sub is not None:
-                        selected[addr] = selected_sub
-                        found_selected = True
-                    if unselected_sub is not None:
-                        unselected[addr] = unselected_sub
-                        found_unselected = True
-                else:
-                    # Include the entire value in selected
-                    selected[addr] = value
+            # The hit flag of `match` only says that the selection mentions `addr`;
+            # which leaves below `addr` are selected is decided by the remaining
+            # selection, exactly as `regenerate` does (`() in subselection` at a leaf).
+            _, subselection = selection.match(addr)
+            if isinstance(value, dict):
+                # Recursively filter nested choices
+                selected_sub, unselected_sub = self.filter(value, subselection)
+                if selected_sub is not None:
+                    selected[addr] = selected_sub
                     found_selected = True
+                if unselected_sub is not None:
+                    unselected[addr] = unselected_sub
+                    found_unselected = True
+            elif () in subselection:
+                # Include the entire value in selected
+                selected[addr] = value
+                found_selected = True
             else:
                 # Include the entire value in unselected
                 unselected[addr] = value
